@@ -172,7 +172,7 @@ def seg_ops():
             return 'raises'
         return ('%s=%r (rejected)' % (path, value), real, model)
 
-    ops += [trav_write('pid_5.xpn_2', 'JOHN', 'PID_5', '^JOHN'), trav_write('pid_3.cx_4.hd_1', 'HOSP', 'PID_3', '^^^HOSP'),
+    ops += [trav_write('pid_5.xpn_2', 'JACK', 'PID_5', '^JACK'), trav_write('pid_3.cx_4.hd_1', 'HOSP', 'PID_3', '^^^HOSP'),
             read_then_write('pid_5.xpn_1.fn_1', 'PID_5', 'A^B'), trav_reject('pid_6.xpn_1', 5),
             trav_reject('pid_13.cx_1', None) if False else trav_reject('pid_9.xpn_2', ['x'])]
     ops += [set_name('PID_3', 'A'), set_name('PID_3', 'B^^^X'), set_name('PID_5', 'SMITH^J'), set_name('PID_8', 'M'),
@@ -304,9 +304,10 @@ def run_segment(R, maxlen, level):
                            'after %s: %s' % (label, '; '.join(pr[:3])), replay(label, level))
                     ok = False
                     break
-                if other.to_er7() != other_text:
+                if other.to_er7() != other_text or consistency(other, R, label):
                     R.fail('C09:copy-aliases-source:' + ';'.join(label), 'C09:copy-aliases-source',
-                           'after %s the source of a copy changed to %r' % (label, other.to_er7()), replay(label, level))
+                           'after %s the source of a copy changed (%r) or no longer owns its children: %s'
+                           % (label, other.to_er7(), consistency(other, R, label)[:2]), replay(label, level))
                     ok = False
                     break
             if ok:
